@@ -765,7 +765,7 @@ class Operation:
             num_splits = self.attrs.get("num_splits")
             axis_tens = self.inputs[0]
             assert len(axis_tens.ops) == 1 and axis_tens.ops[0].type == Op.Const
-            axis = int(axis_tens.values)
+            axis = int(axis_tens.values.item())  # the axis is a scalar or a 1-D array of one element
             input_tens = self.inputs[1]
             outputs = self.outputs
             assert num_splits == len(outputs)
@@ -779,7 +779,7 @@ class Operation:
 
             axis_tens = self.inputs[2]
             assert len(axis_tens.ops) == 1 and axis_tens.ops[0].type == Op.Const
-            axis = int(axis_tens.values)
+            axis = int(axis_tens.values.item())  # the axis is a scalar or a 1-D array of one element
 
             for idx, size in enumerate(sizes):
                 # One but only one size might be set to -1, indicating that size should be inferred
